@@ -94,3 +94,76 @@ package udf
 //@       (s.begin == as(response.Message, *agent.Response_Begin).Begin && s.points != nil && len(s.points) == 0) || (s.begin == old(s.begin) && s.points == old(s.points))
 //@   ensures typeis(response.Message, *agent.Response_End) && result == nil ==> (s.begin == nil && s.points == nil) || (s.begin == old(s.begin) && s.points == old(s.points))
 //@   ensures typeis(response.Message, *agent.Response_Point) && old(s.points) != nil && result == nil ==> len(s.points) == old(len(s.points)) + 1 || s.points == old(s.points)
+
+// ---------------------------------------------------------------- what is sent to the UDF (C19)
+// "same measurement, tags, field names, values and types, group and time": every attribute of the
+// message travels in the request handed to the frame writer -- name, database, retention policy,
+// group id, the dimension list AND the group-by-name flag (the group id is rebuilt from them on
+// the way back), tags, time in ns, and the four typed field maps computed from the fields.
+//@ func (*Server).writeRequest
+//@   trusted
+//@   modifies nothing
+//@ func =(github.com/influxdata/kapacitor/edge.PointMeta).GroupID
+//@   trusted
+//@   pure
+//@ func =(github.com/influxdata/kapacitor/edge.PointMeta).Dimensions
+//@   trusted
+//@   pure
+//@ func (*Server).writePoint
+//@   props C19
+//@   requires s != nil && p != nil
+//@   ensures callresult(fieldsToTypedMaps, 4) != nil ==> result == callresult(fieldsToTypedMaps, 4) && !called(writeRequest)
+//@   ensures callresult(fieldsToTypedMaps, 4) == nil ==> called(writeRequest) && result == callresult(writeRequest, 0)
+//@       && callarg(fieldsToTypedMaps, 0) == p.Fields()
+//@       && callarg(writeRequest, 0) != nil && typeis(callarg(writeRequest, 0).Message, *agent.Request_Point)
+//@       && as(callarg(writeRequest, 0).Message, *agent.Request_Point).Point != nil
+//@   ensures [attributes] callresult(fieldsToTypedMaps, 4) == nil ==>
+//@       as(callarg(writeRequest, 0).Message, *agent.Request_Point).Point.Time == p.Time().UnixNano()
+//@       && as(callarg(writeRequest, 0).Message, *agent.Request_Point).Point.Name == p.Name()
+//@       && as(callarg(writeRequest, 0).Message, *agent.Request_Point).Point.Database == p.Database()
+//@       && as(callarg(writeRequest, 0).Message, *agent.Request_Point).Point.RetentionPolicy == p.RetentionPolicy()
+//@       && as(callarg(writeRequest, 0).Message, *agent.Request_Point).Point.Group == string(p.GroupID())
+//@       && as(callarg(writeRequest, 0).Message, *agent.Request_Point).Point.Dimensions == p.Dimensions().TagNames
+//@       && as(callarg(writeRequest, 0).Message, *agent.Request_Point).Point.ByName == p.Dimensions().ByName
+//@       && as(callarg(writeRequest, 0).Message, *agent.Request_Point).Point.Tags == p.Tags()
+//@   ensures [typed-fields] callresult(fieldsToTypedMaps, 4) == nil ==>
+//@       as(callarg(writeRequest, 0).Message, *agent.Request_Point).Point.FieldsString == callresult(fieldsToTypedMaps, 0)
+//@       && as(callarg(writeRequest, 0).Message, *agent.Request_Point).Point.FieldsDouble == callresult(fieldsToTypedMaps, 1)
+//@       && as(callarg(writeRequest, 0).Message, *agent.Request_Point).Point.FieldsInt == callresult(fieldsToTypedMaps, 2)
+//@       && as(callarg(writeRequest, 0).Message, *agent.Request_Point).Point.FieldsBool == callresult(fieldsToTypedMaps, 3)
+//@ func =(github.com/influxdata/kapacitor/edge.BeginBatchMessage).SizeHint
+//@   trusted
+//@   pure
+//@ func (*Server).writeBeginBatch
+//@   props C19
+//@   requires s != nil && begin != nil
+//@   ensures called(writeRequest) && result == callresult(writeRequest, 0) && callarg(writeRequest, 0) != nil
+//@       && typeis(callarg(writeRequest, 0).Message, *agent.Request_Begin) && as(callarg(writeRequest, 0).Message, *agent.Request_Begin).Begin != nil
+//@       && as(callarg(writeRequest, 0).Message, *agent.Request_Begin).Begin.Name == begin.Name()
+//@       && as(callarg(writeRequest, 0).Message, *agent.Request_Begin).Begin.Group == string(begin.GroupID())
+//@       && as(callarg(writeRequest, 0).Message, *agent.Request_Begin).Begin.Tags == begin.Tags()
+//@       && as(callarg(writeRequest, 0).Message, *agent.Request_Begin).Begin.Size == int64(begin.SizeHint())
+//@       && as(callarg(writeRequest, 0).Message, *agent.Request_Begin).Begin.ByName == begin.Dimensions().ByName
+//@ func (*Server).writeBatchPoint
+//@   props C19
+//@   requires s != nil && bp != nil
+//@   ensures callresult(fieldsToTypedMaps, 4) != nil ==> result == callresult(fieldsToTypedMaps, 4) && !called(writeRequest)
+//@   ensures callresult(fieldsToTypedMaps, 4) == nil ==> called(writeRequest) && result == callresult(writeRequest, 0)
+//@       && callarg(fieldsToTypedMaps, 0) == bp.Fields() && callarg(writeRequest, 0) != nil
+//@       && typeis(callarg(writeRequest, 0).Message, *agent.Request_Point) && as(callarg(writeRequest, 0).Message, *agent.Request_Point).Point != nil
+//@       && as(callarg(writeRequest, 0).Message, *agent.Request_Point).Point.Time == bp.Time().UnixNano()
+//@       && as(callarg(writeRequest, 0).Message, *agent.Request_Point).Point.Group == string(group)
+//@       && as(callarg(writeRequest, 0).Message, *agent.Request_Point).Point.Tags == bp.Tags()
+//@       && as(callarg(writeRequest, 0).Message, *agent.Request_Point).Point.FieldsString == callresult(fieldsToTypedMaps, 0)
+//@       && as(callarg(writeRequest, 0).Message, *agent.Request_Point).Point.FieldsDouble == callresult(fieldsToTypedMaps, 1)
+//@       && as(callarg(writeRequest, 0).Message, *agent.Request_Point).Point.FieldsInt == callresult(fieldsToTypedMaps, 2)
+//@       && as(callarg(writeRequest, 0).Message, *agent.Request_Point).Point.FieldsBool == callresult(fieldsToTypedMaps, 3)
+//@ func (*Server).writeEndBatch
+//@   props C19
+//@   requires s != nil
+//@   ensures called(writeRequest) && result == callresult(writeRequest, 0) && callarg(writeRequest, 0) != nil
+//@       && typeis(callarg(writeRequest, 0).Message, *agent.Request_End) && as(callarg(writeRequest, 0).Message, *agent.Request_End).End != nil
+//@       && as(callarg(writeRequest, 0).Message, *agent.Request_End).End.Name == name
+//@       && as(callarg(writeRequest, 0).Message, *agent.Request_End).End.Group == string(groupInfo.ID)
+//@       && as(callarg(writeRequest, 0).Message, *agent.Request_End).End.Tmax == tmax.UnixNano()
+//@       && as(callarg(writeRequest, 0).Message, *agent.Request_End).End.Tags == groupInfo.Tags
